@@ -93,7 +93,7 @@ def histories(draw, max_ops=40, big=False, cls='continuous', scattered=None,
     if gpu_focus:
         # GPU-share focused: every node has GPUs, some of them blocked, most tasks ask for shares
         layout['gpus'] = max(layout['gpus'], 2)
-        if not layout['blocked_gpus']:
+        if not layout['blocked_gpus'] and not jsrun:
             layout['blocked_gpus'] = draw(st.lists(st.integers(0, layout['gpus'] - 1), min_size=1,
                                                    max_size=layout['gpus'] - 1, unique=True))
     spec = task_specs(layout, light=light, allow_bad=allow_bad, jsrun=jsrun, heavy=heavy, colo=colo,
